@@ -302,6 +302,7 @@ def run(ctx):
     _tracker_reset_rule(ctx, repo)
     _sorted_extremes_rule(ctx, repo)
     _placement_bookkeeping_rule(ctx, repo)
+    _memo_key_rule(ctx, repo)
 
 
 def _recursion_forwarding(ctx, repo):
@@ -925,3 +926,55 @@ def _placement_bookkeeping_rule(ctx, repo):
             ctx.ob('C06.n', f'cirq.transformers.stratify._stratify_circuit:{d}#{k}', ok, '' if ok else
                    f'`{ast.unparse(s)}` (line {s.lineno}) is not made where the operation is placed (`{ast.unparse(pl)}`, line {pl.lineno}): the index recorded for later conflict checks '
                    'can differ from the moment the operation ends up in, so a later operation is scheduled before one it must follow', m.rel, s.lineno)
+
+
+def _memo_key_rule(ctx, repo):
+    """C06.o - a memo table inside a transformer is keyed by the whole of what the memoised call receives."""
+    ctx.decided.append('C06.o memo tables in transformers: a value computed from an operation is cached under a key built from the operation itself (the object or its id), not from a '
+                       'projection such as its gate when the memoised call is given the whole operation (whether two operations commute depends on their qubits, not only their gates)')
+    ctx.rule('C06.o', 'memo key covers the arguments: in the transformer packages, for every store <cache>[key] = F(args) into a dictionary that the same function also looks up, no local '
+             'variable is handed to F whole while the key only contains attributes of it', floor=3, style='COH')
+    n = 0
+    for m, cls, fn, qual in _functions(repo):
+        if m.rel.endswith('_test.py'):
+            continue
+        defs = {}
+        for a in ast.walk(fn):
+            if isinstance(a, ast.Assign) and len(a.targets) == 1 and isinstance(a.targets[0], ast.Name):
+                defs.setdefault(a.targets[0].id, []).append(a.value)
+        for s in ast.walk(fn):
+            if not (isinstance(s, ast.Assign) and isinstance(s.value, ast.Call)):
+                continue
+            subs = [t for t in s.targets if isinstance(t, ast.Subscript) and isinstance(t.value, ast.Name)]
+            if not subs:
+                continue
+            t = subs[0]
+            cont = t.value.id
+            looked = any((isinstance(c, ast.Call) and isinstance(c.func, ast.Attribute) and c.func.attr == 'get' and isinstance(c.func.value, ast.Name) and c.func.value.id == cont)
+                         or (isinstance(c, ast.Compare) and isinstance(c.ops[0], (ast.In, ast.NotIn)) and isinstance(c.comparators[0], ast.Name) and c.comparators[0].id == cont)
+                         for c in ast.walk(fn))
+            if not looked:
+                continue
+            key = t.slice
+            kexprs = [key] + [v for x in ast.walk(key) if isinstance(x, ast.Name) for v in defs.get(x.id, [])]
+            par = m.parents()
+
+            def bare_and_projected(name):
+                bare = proj = False
+                for e in kexprs:
+                    for x in ast.walk(e):
+                        if isinstance(x, ast.Name) and x.id == name:
+                            p = par.get(x)
+                            if isinstance(p, ast.Attribute) and p.value is x:
+                                proj = True
+                            else:
+                                bare = True
+                return bare, proj
+            n += 1
+            whole = [a.id for a in list(s.value.args) + [k.value for k in s.value.keywords] if isinstance(a, ast.Name)]
+            bad = [a for a in whole if bare_and_projected(a) == (False, True)]
+            ctx.ob('C06.o', f'{qual}:{cont}', not bad, '' if not bad else
+                   f'`{ast.unparse(s)[:80]}` is cached under `{ast.unparse(kexprs[-1])[:50]}`, which holds only attributes of {bad}: two calls that differ in the rest of {bad[0]} '
+                   '(e.g. the qubits of an operation) share one cached answer', m.rel, s.lineno)
+    if n == 0:
+        raise AnalysisError('C06.o: no memo table found in the transformer packages')
